@@ -470,8 +470,11 @@ def run_witness(u, scratch, failed_obligations, tier):
     # a bounded stand-in reports a NAMED deviation from the statement without failing: `VERIF-DEVIATION id=<slug> <what>`;
     # the runner decides: listed as `known` in known_findings.json -> KNOWN-FINDING, otherwise -> VIOLATION.
     deviations = {}
-    for m in re.finditer(r"^VERIF-DEVIATION id=(\S+) (.*)$", out, re.M):
-        deviations.setdefault(m.group(1), m.group(2).strip())
+    # optional owners right after the id (`VERIF-DEVIATION id=x @C12 what..`): in a unit shared between properties a
+    # deviation is a matter for the properties it names only
+    for m in re.finditer(r"^VERIF-DEVIATION id=(\S+)((?: @C\d+)*) (.*)$", out, re.M):
+        owners = [t.strip() for t in m.group(2).split("@") if t.strip()]
+        deviations.setdefault(m.group(1), (m.group(3).strip(), owners))
     shown = r.stdout[-9000:] + "\n--- stderr (tail) ---\n" + r.stderr[-1200:]
     return {"_results": results, "_cmd": " ".join(cmd), "_output": shown, "_map": w.get("map", {}), "_bounded": bounded, "_deviations": deviations}
 
@@ -598,7 +601,9 @@ def do_check(prop, args, scratch, seed, t0):
 
     # named deviations reported by bounded stand-ins
     for unit, w in witness.items():
-        for slug, what in w.get("_deviations", {}).items():
+        for slug, (what, owners) in w.get("_deviations", {}).items():
+            if owners and prop not in owners:
+                continue
             if slug in known_open:
                 known_hits.append(slug)
                 lines.append(f"KNOWN-FINDING: property={prop} {known_open[slug].get('line', what)}")
